@@ -109,3 +109,101 @@ Lemma vmaplog_example :
   vsplits (vreplay lg) [4; 2; 1] = [(9, 12, 23, 24); (7, 11, 21, 22)] /\
   vsplits st [3; 2; 1] = [(7, 11, 21, 22)] /\ vsplits st [1] = [].
 Proof. vm_compute. repeat split. Qed.
+
+(* ---- any number of restarts between the mutations ---- *)
+Lemma live_l_cong lab a b o : map_eq a b -> mp_splits a = mp_splits b -> op_ok o = true ->
+  map_eq (live_l lab a o) (live_l lab b o) /\ mp_splits (live_l lab a o) = mp_splits (live_l lab b o).
+Proof.
+  intros Hm Hs Hok. destruct o; cbn [op_ok] in Hok; try discriminate; cbn [live_l live].
+  - split; [intro k; now rewrite !set_maps_get, Hm|now rewrite !set_maps_splits].
+  - destruct svs as [|x r]; [discriminate|]. split.
+    + intro k. now rewrite !set_map_get, !set_maps_get, Hm.
+    + now rewrite !set_map_splits, !set_maps_splits.
+  - split.
+    + intro k. cbn [add_split mp_map]. now rewrite !set_map_get, Hm.
+    + cbn [add_split mp_splits]. rewrite !set_map_splits. now rewrite Hs.
+Qed.
+
+Lemma records_l_indep twice lab a b o : op_ok o = true -> records_l twice lab a o = records_l twice lab b o.
+Proof. destruct o; cbn [op_ok]; try discriminate; reflexivity. Qed.
+
+Lemma vsame_refl a : vsame a a.
+Proof. split; [reflexivity|]. intro v. split; reflexivity. Qed.
+
+Lemma vsame_trans a b c : vsame a b -> vsame b c -> vsame a c.
+Proof.
+  intros [L1 H1] [L2 H2]. split; [congruence|]. intro v. destruct (H1 v) as [A1 B1], (H2 v) as [A2 B2].
+  split; [intro k; now rewrite A1, A2|congruence].
+Qed.
+
+Lemma vsame_step twice ancs a b v o : vsame a b -> op_ok o = true ->
+  vsame (vstep twice ancs a (v, o)) (vstep twice ancs b (v, o)).
+Proof.
+  destruct a as [st1 lg1], b as [st2 lg2]. intros [L H] Hok. cbn [fst snd] in L, H. subst lg2.
+  assert (Hlab : vmapped st1 (anc_of ancs v) (sv_of o) = vmapped st2 (anc_of ancs v) (sv_of o)).
+  { apply vmapped_eq. intro w. exact (proj1 (H w)). }
+  cbn [vstep]. rewrite <- Hlab. split; cbn [fst snd].
+  - f_equal. f_equal. now apply records_l_indep.
+  - intro w. unfold vget. rewrite !paget_aset. destruct (w =? v) eqn:E; [|exact (H w)].
+    fold (vget st1 v). fold (vget st2 v). destruct (H v) as [A B].
+    destruct (live_l_cong (vmapped st1 (anc_of ancs v) (sv_of o)) _ _ o A B Hok) as [A' B']. split; [exact A'|exact B'].
+Qed.
+
+Lemma vsame_run twice ancs ops : forall a b, vsame a b -> forallb (fun vo => op_ok (snd vo)) ops = true ->
+  vsame (vrun twice ancs a ops) (vrun twice ancs b ops).
+Proof.
+  induction ops as [|[v o] r IH]; intros a b H Hok; [exact H|].
+  cbn [forallb snd] in Hok. apply andb_true_iff in Hok as [Ho Hr]. unfold vrun. cbn [fold_left].
+  apply IH; [|exact Hr]. now apply vsame_step.
+Qed.
+
+(* a restart of a state whose logs replay to it is indistinguishable from it, and is such a state *)
+Lemma vsame_restart st lg : vinv false st lg -> vsame (vreplay lg, lg) (st, lg) /\ vinv false (vreplay lg) lg.
+Proof.
+  intro H. split.
+  - split; [reflexivity|]. intro v. cbn [fst]. rewrite vget_vreplay. destruct (H v) as [A B]. split; [exact A|now apply B].
+  - intro v. rewrite vget_vreplay. split; [intro k|intro]; reflexivity.
+Qed.
+
+Lemma vrun_app twice ancs a b sl : vrun twice ancs sl (a ++ b) = vrun twice ancs (vrun twice ancs sl a) b.
+Proof. unfold vrun. apply fold_left_app. Qed.
+
+Lemma vsegs_refine ancs segs : forall a b, vsame a b -> vinv false (fst a) (snd a) ->
+  forallb (fun ops => forallb (fun vo => op_ok (snd vo)) ops) segs = true ->
+  vsame (vseg_go false ancs a segs) (vrun false ancs b (concat segs)).
+Proof.
+  induction segs as [|ops rest IH]; intros a b H Hi Hok; [exact H|].
+  cbn [forallb] in Hok. apply andb_true_iff in Hok as [Ho Hr].
+  cbn [concat]. rewrite vrun_app.
+  pose proof (vsame_run false ancs ops a b H Ho) as H1.
+  pose proof (vinv_run' false ancs ops a Hi Ho) as Hi1.
+  destruct rest as [|ops2 rest2].
+  - cbn [vseg_go concat]. unfold vrun at 2. cbn [fold_left]. exact H1.
+  - change (vseg_go false ancs a (ops :: ops2 :: rest2)) with
+      (let '(st, lg) := vrun false ancs a ops in vseg_go false ancs (vreplay lg, lg) (ops2 :: rest2)).
+    destruct (vrun false ancs a ops) as [st lg]. cbn [fst snd] in Hi1.
+    destruct (vsame_restart st lg Hi1) as [Hs Hi2].
+    apply IH; [|exact Hi2|exact Hr]. eapply vsame_trans; [exact Hs|exact H1].
+Qed.
+
+(* run s1; restart; run s2; restart; ... is, at every version, the uninterrupted run of s1 ++ s2 ++ ... *)
+Lemma vsegs_refine_init ancs segs :
+  forallb (fun ops => forallb (fun vo => op_ok (snd vo)) ops) segs = true ->
+  vsame (vseg_go false ancs ([], []) segs) (vrun false ancs ([], []) (concat segs)).
+Proof. intro H. apply vsegs_refine; [apply vsame_refl|apply vinv_empty|exact H]. Qed.
+
+Lemma vsame_obs a b anc : vsame a b ->
+  (forall sv, vmapped (fst a) anc sv = vmapped (fst b) anc sv) /\ vsplits (fst a) anc = vsplits (fst b) anc.
+Proof.
+  intros [_ H]. split.
+  - intro sv. apply vmapped_eq. intro v. exact (proj1 (H v)).
+  - apply vsplits_eq. intro v. exact (proj2 (H v)).
+Qed.
+
+Definition vx_segs : list (list (N * mapop)) :=
+  [[(1, OMerge 5 10 [11; 12]); (2, OSvSplit 7 11 21 22)]; [(3, OCleave 8 30 [12])]; [(4, OSvSplit 9 12 23 24)]].
+Lemma vsegs_example :
+  forallb (fun ops => forallb (fun vo => op_ok (snd vo)) ops) vx_segs = true /\ concat vx_segs = vx_ops /\
+  vsplits (fst (vseg_go false vx_ancs ([], []) vx_segs)) [4; 2; 1] = [(9, 12, 23, 24); (7, 11, 21, 22)] /\
+  map (vmapped (fst (vseg_go false vx_ancs ([], []) vx_segs)) [3; 2; 1]) [11; 12; 21; 22; 23] = [0; 30; 10; 10; 23].
+Proof. vm_compute. repeat split. Qed.
